@@ -58,10 +58,10 @@ func Gen(t *rapid.T, backend sim.Backend) *Program {
 	}
 	p.Batch1 = rapid.Bool().Draw(t, "batch1")
 	p.Conc1 = rapid.IntRange(0, 3).Draw(t, "conc1") != 0
-	nKeys := rapid.IntRange(1, 4).Draw(t, "nkeys")
+	nKeys := rapid.IntRange(1, 5).Draw(t, "nkeys")
 	p.Keys = append([]string{}, rapid.Permutation(keyPool).Draw(t, "keys")[:nKeys]...)
 	sort.Strings(p.Keys)
-	for i := rapid.IntRange(0, 2).Draw(t, "nsplits"); i > 0; i-- {
+	for i := rapid.IntRange(0, 3).Draw(t, "nsplits"); i > 0; i-- {
 		k := rapid.SampledFrom(keyPool).Draw(t, "splitkey")
 		if rapid.Bool().Draw(t, "offkey") {
 			k += "0"
@@ -80,7 +80,8 @@ func Gen(t *rapid.T, backend sim.Backend) *Program {
 	// victim
 	pess := rapid.Bool().Draw(t, "pessimistic")
 	b := &sim.Step{Txn: 0, Op: "begin", Client: 0, Pessimistic: pess}
-	if backend == sim.Uni {
+	// requested on both stores: mocktikv always answers with the fall-back form (see prog.Gen)
+	{
 		switch rapid.IntRange(0, 3).Draw(t, "mode") {
 		case 1:
 			b.Async = true
